@@ -87,9 +87,16 @@ def cases(ctx):
     for i in range(n):
         yield _gen(rng, fresh=(i % (n // nfresh) == 0))
     # loky workers inside grow / across batches (slow to start, sampled)
-    for i in range(ctx.pick(4, 40)):
+    for i in range(ctx.pick(8, 60)):
         c = _gen(rng, fresh=False)
         c["num_workers"] = 2
+        if i % 2 == 0:
+            # cases of ONE batch evaluated by a pool (grow(i, crop, num_workers=k), as the cluster scripts do), with
+            # per-call jitter so that later cases of a batch finish before earlier ones
+            n = gens.n_settings(c["w"]["combos"], c["w"]["cases"])
+            c["batchsize"], c["num_batches"] = max(2, min(n, rng.randint(3, 6))), None
+            c["within_batch_pool"] = True
+            c["jitter_us"] = 30000
         yield c
 
 
@@ -137,7 +144,11 @@ def run_case(ctx, case):
         if r[0] != "ok":
             return fail("sow in a fresh process failed: %r" % (r,), step="sow", exc=str(r[1]) if len(r) > 1 else r[0])
     else:
-        fn = cropkit.build_probe(kind, logfile, name="probe", by_value=case["by_value"])
+        ctl = None
+        if case.get("jitter_us"):
+            ctl = os.path.join(tmp, "ctl.json")
+            probe.write_ctl(ctl, jitter_us=case["jitter_us"], jitter_seed=case["pseed"])
+        fn = cropkit.build_probe(kind, logfile, ctl=ctl, name="probe", by_value=case["by_value"])
         try:
             with quiet():
                 crop = xyzpy.Crop(fn=fn, name=name, parent_dir=tmp, **ctor)
@@ -160,6 +171,10 @@ def run_case(ctx, case):
     # ------------------------------------------------------------------ grow
     grown = Counter()
     plan = _plan(rng, B)
+    if case.get("within_batch_pool"):
+        ids_ = list(range(1, B + 1))
+        rng.shuffle(ids_)
+        plan = [{"how": "grow_fn", "ids": ids_, "reload": True}]
     for st in plan:
         how = st["how"]
         missing_now = [i for i in range(1, B + 1) if grown[i] == 0]
